@@ -278,3 +278,34 @@ Proof.
   unfold bstep at 1. rewrite Ha. cbn [b_last]. rewrite beq_bytes_refl. cbn [b_addr]. reflexivity.
 Qed.
 End Stale.
+
+(* ---- the process's exit status: main() of varlink-cli ----
+   do_main returns the command's Result; `on_err debug` is what the error block of main ends the process with on the
+   --debug path and on the ordinary one (None: the block falls off its end, main returns, status 0). The term is
+   regenerated from main.rs (gen/CliGen.v, main_exit_on_error); `propagates` says the call arm hands varlink_call's
+   error on with `?`. *)
+Definition cli_exit (on_err : bool -> option N) (propagates debug ok : bool) : N :=
+  if ok then 0%N
+  else if propagates then match on_err debug with Some c => c | None => 0%N end
+  else 0%N.
+
+Definition exits_nonzero (on_err : bool -> option N) : Prop := forall d, exists c, on_err d = Some c /\ c <> 0%N.
+
+Lemma cli_exit_zero_iff on_err : exits_nonzero on_err -> forall debug ok,
+  cli_exit on_err true debug ok = 0%N <-> ok = true.
+Proof.
+  intros H debug ok. unfold cli_exit. destruct ok; [split; reflexivity|].
+  destruct (H debug) as [c [E Hc]]. rewrite E. split; [intro; contradiction | discriminate].
+Qed.
+
+(* the status does not depend on --debug *)
+Lemma cli_exit_debug_irrelevant on_err : (forall d, on_err d = on_err false) -> forall p d ok,
+  cli_exit on_err p d ok = cli_exit on_err p false ok.
+Proof. intros H p d ok. unfold cli_exit. rewrite (H d). reflexivity. Qed.
+
+(* what goes wrong otherwise: an error block that only exits on the ordinary path reports success for a failed --debug call *)
+Example debug_path_without_exit_reports_success :
+  cli_exit (fun d => if d then None else Some 1%N) true true false = 0%N.
+Proof. reflexivity. Qed.
+Example unpropagated_error_reports_success : cli_exit (fun _ => Some 1%N) false false false = 0%N.
+Proof. reflexivity. Qed.
